@@ -13,13 +13,14 @@ from fv import core, space
 from fv.claims import CLAIMS
 
 ID = "C15"
+CASE_TIMEOUT_S = 7200  # per-case alarm (seconds); a case that does not finish is reported as a violation
 LEVEL = "exploration"
 TECHNIQUE = CLAIMS[ID]["technique"]
 RULE = (
     "6 definitions (CSE-heavy, multi-sensor with multi-reading sensors, calibration, all four control x calibration "
     "combinations) x declaration-order variants (every permutation of the state declaration order, reversed controls / "
     "calibrations / update-dict / calibration-map / noise dicts / sensors / readings, set vs list containers) x "
-    "PYTHONHASHSEED in 0..7 (quick) / 0..63 (thorough), every hash seed in its own interpreter process; observed: the "
+    "PYTHONHASHSEED in 0..7 (quick; 4 declaration variants per definition, 3 for the large ones) / 0..63 (thorough), every hash seed in its own interpreter process; observed: the "
     "full text of header and source from cpp.compile_ekf and cpp.compile, and the Python layout (Model.arglist, names of "
     "State/Control/Calibration/Covariance/each Reading, calibration vector, process-noise matrix). Oracle: exactly one "
     "text per definition and output kind, one layout per definition; in every process each definition is generated again with "
@@ -37,8 +38,19 @@ def base_defs():
             space.bind_def(3, 0, 1, order=0, sensors_shape=(3, 1)),
             space.bind_def(2, 2, 0, order=0, sensors_shape=(1, 2)),
             space.bind_def(3, 0, 0, order=0, sensors_shape=(2,)),
-            turn_rate_def(),
+            turn_rate_def(), numbered_sensors_def(),
             space.bind_def(5, 3, 3, order=0, sensors_shape=(3, 1), tag="-wide")]
+
+
+def numbered_sensors_def():
+    """sensor keys that share a prefix and a first number (imu1_accel / imu1_gyro), or differ only in digits (imu2 / imu10)"""
+    S, add, mul, C = space.S, space.add, space.mul, space.C
+    x, y = S("x"), S("y")
+    sensors = [["imu10", [["r", add(x, y)]]], ["imu1_gyro", [["r", mul(x, y)]]], ["imu2", [["r", x]]], ["imu1_accel", [["r", y]]],
+               ["imu01", [["r", add(x, mul(C(2), y))]]]]
+    snoise = [[k_, [["r", 0.25 * (i_ + 1)]]] for i_, (k_, _) in enumerate(reversed(sensors))]
+    return space.mkdef("numbered-sensors", ["y", "x"], ["u"], [], [["y", add(y, mul(space.DT, S("u")))], ["x", add(x, mul(space.DT, y))]], [],
+                       [["u", 0.25]], sensors, snoise)
 
 
 def turn_rate_def():
@@ -82,7 +94,7 @@ def variants(d, tier):
     st = sorted(d["state"])
     perms = list(itertools.permutations(range(len(st))))
     out = []
-    flagsets = [0, 63, 21, 42, 36, 27] if tier == "quick" else [0, 63, 21, 42, 36, 27, 7, 56, 33, 30, 45, 18]
+    flagsets = [0, 63, 21, 42] if tier == "quick" else [0, 63, 21, 42, 36, 27, 7, 56, 33, 30, 45, 18]
     if tier == "quick" and len(st) >= 5:
         flagsets = [0, 63, 21]  # the two large definitions are expensive to generate: three variants each in the quick tier
     for i, fl in enumerate(flagsets):
